@@ -34,6 +34,7 @@ def run(ctx, rep):
         check_lineage(crate, rep, cfg)
         check_vm(crate, rep, cfg)
         check_block(crate, rep, cfg)
+        check_compiles_all(crate, rep, cfg)
         # "regardless of the order in which the templates were registered": lineages and parent chains are recomputed from the parse-time
         # definitions and never read back while being computed — the C10.DERIVED inventory, which is as much a clause of this property
         from props import c10
@@ -234,6 +235,47 @@ def check_lineage(crate, rep, cfg):
 
 # --------------------------------------------------------------------------------------------------------------- VM
 
+def check_compiles_all(crate, rep, cfg):
+    """C04.BLOCK — a child's block overrides are found by compiling its WHOLE body (a block may sit inside a filter section, a set block or
+    a component-call body at the child's top level): Template::new hands the parser's node list to the body compiler as it is."""
+    tn = crate.one("template::Template::new")
+    # `?` and an error mapping leave the Ok payload alone; nothing else is looked through
+    tr = Tracer(tn, transparent={"std::ops::Try::branch", "std::result::Result::<T, E>::map_err"})
+    comps = [(bb, t) for bb, t in tn.calls() if callee_def(t).endswith("Compiler::<'s>::compile") or callee_def(t).endswith("compiler::Compiler::compile")]
+    if not comps:
+        comps = [(bb, t) for bb, t in tn.calls() if callee_def(t).rsplit("::", 1)[-1] == "compile" and "Compiler" in callee_def(t)]
+    ok = bool(comps)
+    why = "no Compiler::compile call"
+    n = 0
+    for bb, t in comps:
+        ls = [l for l in tr.operand(t["args"][1]) if l.kind != "cycle"]
+        from_parser = bool(ls) and all(l.kind == "call" and l.detail[0].endswith("::parse") and ".nodes" in l.projs for l in ls)
+        if from_parser:
+            n += 1
+            # ... and it is not edited in place on the way (retain / drain / truncate / sort take `&mut nodes`)
+            chain, todo = set(), [t["args"][1]]
+            while todo:
+                op = todo.pop()
+                if op["k"] in ("copy", "move") and op["pl"]["l"] not in chain:
+                    chain.add(op["pl"]["l"])
+                    for (b3, i3, dp, rv) in tn.defs.get(op["pl"]["l"], []):
+                        if rv["k"] == "use":
+                            todo.append(rv["op"])
+            for b3, i3, st in tn.stmts():
+                if i3 != "t" and st.get("k") == "assign" and st["rv"]["k"] == "ref" and st["rv"].get("bk") not in ("shared", None) and st["rv"]["pl"]["l"] in chain and \
+                        (not st["rv"]["pl"]["p"] or pl_projs(st["rv"]["pl"])[-1:] == [".nodes"]):
+                    ok, why = False, "the node list is borrowed mutably before it is compiled (edited in place) at %s" % tn.where(b3, i3)
+        elif any(l.kind == "call" and l.detail[0].endswith("::parse") for l in ls) or any(l.kind == "call" and l.detail[0].rsplit("::", 1)[-1] in ("collect", "filter", "retain", "into_iter", "from_iter") for l in ls):
+            ok, why = False, "the body compiler receives a transformed node list (%s)" % sorted(leaf_str(l) for l in ls)[:2]
+    ok = ok and n == 1
+    if ok is False and why == "no Compiler::compile call":
+        pass
+    elif n != 1 and ok is False and not why.startswith("the body"):
+        why = "%d compile calls receive the parser's node list as it is" % n
+    rep.add("C04.BLOCK", "C04.BLOCK:Template::new:compiles-every-node", ok, tn.where(comps[0][0]) if comps else tn.where(0), "Template::new compiles `parser_output.nodes` unfiltered "
+            "(blocks nested in filter sections / set blocks / component bodies of a child are still overrides)" + ("" if ok else " — VIOLATED: " + why))
+
+
 def check_current_block(vm, crate, rep, tr, region):
     inner = [bb for bb, t in vm.calls(sorted(region)) if VM in callee_names(t)]
     writes = []     # (bb, value leaves, is_replace)
@@ -304,6 +346,23 @@ def check_vm(crate, rep, cfg):
     if ok and gets:
         rl = tr.operand(idxs[0][1]["args"][0])
         ok = bool(rl) and all(l.kind == "call" and l.detail[2] in {g[0] for g in gets} or (l.kind == "call" and l.detail[0].endswith("::filter")) for l in through(tr, rl))
+    if not idxs:
+        # `lineage.first()`: the same element, None for an empty lineage (the error path)
+        firsts = []
+        for bd in crate.with_closures(vm) if hasattr(crate, "with_closures") else [vm]:
+            for bb, t in bd.calls(sorted(region) if bd is vm else None):
+                if callee_def(t).endswith("<impl [T]>::first") and "parsing::instructions::Chunk" in (t["atys"][0] if t["atys"] else ""):
+                    firsts.append((bd, bb, t))
+        if len(firsts) == 1:
+            bd, bb, t = firsts[0]
+            if bd is vm:
+                rl = tr.operand(t["args"][0])
+                ok = bool(rl) and all(l.kind == "call" and l.detail[2] in {g[0] for g in gets} for l in through(tr, rl))
+            else:
+                # inside the closure of `get(name).and_then(|bl| bl.first()..)`: the closure is handed to an adapter applied to the lookup
+                ok = any(callee_def(t2).rsplit("::", 1)[-1] in ("and_then", "map", "filter_map") and
+                         any(l.kind == "call" and l.detail[2] in {g[0] for g in gets} for l in tr.operand(t2["args"][0])) for b2, t2 in vm.calls(sorted(region)))
+            idxs = [(bb if bd is vm else (gets[0][0] if gets else 0), t)]
     rep.add("C04.VM", "C04.VM:RenderBlock:most-derived-definition", ok, vm.where(idxs[0][0]) if idxs else vm.where(0), "RenderBlock runs `lineage[0]` — the most-derived definition"
             + ("" if ok else " — VIOLATED"))
     pushes = [(bb, t) for bb, t in vm.calls(sorted(region)) if callee_def(t).endswith("Vec::<T, A>::push") and any(".blocks" in l.projs for l in tr.operand(t["args"][0]))]
